@@ -50,6 +50,13 @@ def payload_groups():
         [float("nan"), float("inf"), 314159],
         ["", 0],
         [-(1 << 61), -1 - ((1 << 61) - 1 - 1)],
+        # values of different types next to small integers (claripy serialises arguments itself: markers for
+        # None/True/False, length-prefixed integers, ...)
+        [None, 15, 0x0F00, "\x0f"],
+        [True, 31, 1, "\x1f"],
+        [False, 46, 0, "\x2e"],
+        [None, True, False, 0, 1, 2, 14, 15, 16, 30, 31, 32, 45, 46, 47, 255, 256, 3840, 7936, 11776],
+        [b"\x0f", "\x0f", 15, None],
     ]
 
 
@@ -104,8 +111,8 @@ def run_shard(spec, res):
             lambda v: U(v),
             lambda v: UR(v),
             lambda v: UPlain(v),
-            lambda v: SIA(1, v, 9) if isinstance(v, int) else SIA(1, 0, 9),
-            lambda v: SIA(v, 0, 9) if isinstance(v, int) else SIA(1, 0, 9),
+            lambda v: SIA(1, v, 9) if isinstance(v, int) or v is None else SIA(1, 0, 9),
+            lambda v: SIA(v, 0, 9) if isinstance(v, int) or v is None else SIA(1, 0, 9),
             lambda v: RA("r", v) if isinstance(v, int) and not isinstance(v, bool) and v >= 0 else RA(str(v), 0),
         ]
         for grp in payload_groups():
@@ -157,6 +164,29 @@ def run_shard(spec, res):
             (lambda: claripy.Concat(x8, y8), lambda: claripy.Concat(y8, x8)),
             (lambda: x8 - y8, lambda: y8 - x8),
         ]
+        # the empty interval BVV(None, w) next to every small constant, both build orders
+        for w_ in (8, 16):
+            esi = claripy.ESI(w_)
+            keep.append(esi)
+            for v in range(0, 300):
+                c_ = claripy.BVV(v, w_)
+                res.case(["literal-pair", "ESI", v, w_], True)
+                if c_ is esi or c_.args[0] != v % (1 << w_):
+                    res.violation({"kind": "hashcons", "what": "different-requests-same-object", "node": repr(c_), "observed": [repr(esi), f"BVV({v}, {w_})"]})
+        for v in range(300, 340):
+            c_ = claripy.BVV(v, 24)
+            keep.append(c_)
+        esi24 = claripy.ESI(24)
+        keep.append(esi24)
+        if esi24.args[0] is not None:
+            res.violation({"kind": "hashcons", "what": "different-requests-same-object", "node": repr(esi24), "observed": ["ESI(24)", repr(esi24.args)]})
+        for v in (15, 31, 46, 3840):
+            for first in (0, 1):
+                wv = 40 + v % 7 + first
+                a_ = (claripy.ESI(wv), claripy.BVV(v, wv)) if first else (claripy.BVV(v, wv), claripy.ESI(wv))[::-1]
+                keep += list(a_)
+                if a_[0] is a_[1]:
+                    res.violation({"kind": "hashcons", "what": "different-requests-same-object", "node": repr(a_[0]), "observed": [f"ESI({wv})", f"BVV({v}, {wv})"]})
         for f1, f2 in pairs:
             a1, a1b, a2 = f1(), f1(), f2()
             keep += [a1, a2]
